@@ -50,6 +50,69 @@ def toyRun (drop : Bool) : Run (Int × Int) (Int × Int) where
   enc := fun s => if drop then (s.1, 0) else s
   dec := fun b => some b
 
+/-! ### Hidden state: a component the step reads and writes but a checkpoint does not save
+
+`V` is what the property lists (population, archive, logbook, strategy object, both generator states), `H` is
+whatever else the library keeps between two generations: module-level containers and iterators, class attributes,
+function defaults, closure cells.  `enc` pickles `V` only.  A new process starts with the import-time value of `H`. -/
+
+/-- A run with hidden state. -/
+structure HRun (V H B : Type) where
+  step : V × H → V × H
+  enc : V → B
+  dec : B → Option V
+
+/-- `n` generations from `(v, h)`. -/
+def hrun {V H B : Type} (r : HRun V H B) : Nat → V × H → V × H
+  | 0, s => s
+  | n + 1, s => hrun r n (r.step s)
+
+/-- Run `k` generations, pickle the VISIBLE part, get killed; a new process (hidden state `h0`, what importing the
+library gives) restores and runs the remaining `n - k` generations. -/
+def hresumeFrom {V H B : Type} (r : HRun V H B) (h0 : H) (k n : Nat) (s : V × H) : Option (V × H) :=
+  (r.dec (r.enc (hrun r k s).1)).map (fun v => hrun r (n - k) (v, h0))
+
+/-- The same run started a second time in the SAME process: the hidden state is what the first run left behind. -/
+def hrerun {V H B : Type} (r : HRun V H B) (n : Nat) (v : V) (h : H) : V × H :=
+  hrun r n (v, (hrun r n (v, h)).2)
+
+/-- The checkpoint of generation `k` restored in the SAME process after the uninterrupted run has finished. -/
+def hrestoreSame {V H B : Type} (r : HRun V H B) (k n : Nat) (s : V × H) : Option (V × H) :=
+  (r.dec (r.enc (hrun r k s).1)).map (fun v => hrun r (n - k) (v, (hrun r n s).2))
+
+/-- Non-interference: the visible output of a step does not depend on the hidden component. -/
+def NonInterfering {V H B : Type} (r : HRun V H B) : Prop :=
+  ∀ v h h', (r.step (v, h)).1 = (r.step (v, h')).1
+
+/-- What the hidden-state detector of the harness observes: no step changes the hidden component. -/
+def HiddenConstant {V H B : Type} (r : HRun V H B) : Prop :=
+  ∀ s, (r.step s).2 = s.2
+
+/-- Forgetting a hidden component that is not there: an `HRun` over `H = Unit` is a `Run`. -/
+def HRun.toRun {V B : Type} (r : HRun V Unit B) : Run V B where
+  step := fun v => (r.step (v, ())).1
+  enc := r.enc
+  dec := r.dec
+
+/-- Conversely every `Run` over a product state whose checkpoint keeps the first component only. -/
+def Run.hide {V H B : Type} (step : V × H → V × H) (enc : V → B) (dec : B → Option V) : HRun V H B :=
+  ⟨step, enc, dec⟩
+
+/-- The toy of the driver: the visible state is a number, the hidden state the position of a module-level
+`itertools.cycle((grow, full))` (seeded change C17-r4m3).  A step appends a digit to the number — `1` when the cycle
+says "full" and the operator listens to it (`uses`), `0` otherwise — and advances the cycle.  With `uses = false`
+the hidden state is written but never read. -/
+def toyHidden (uses : Bool) : HRun Int Bool Int where
+  step := fun s => (if uses && s.2 then 2 * s.1 + 1 else 2 * s.1, !s.2)
+  enc := fun v => v
+  dec := fun b => some b
+
+/-- A hidden table that is read but never written (a module-level constant): the step adds `h`. -/
+def toyConst : HRun Int Int Int where
+  step := fun s => (s.1 + s.2, s.2)
+  enc := fun v => v
+  dec := fun b => some b
+
 /-! ### Order-preserving parallel map with an arbitrary completion schedule -/
 
 /-- The task with submission index `i` completes: its result goes to slot `i`.
